@@ -43,4 +43,35 @@ theorem releasePing_online (s : S) (e : Err) : (s.releasePing e).online = s.onli
   · exact answer_online _ _ _
   · rfl
 
+theorem closeNow_closed (s : S) : s.closeNow.connSemClosed = true := by
+  unfold S.closeNow
+  simp only
+  have h1 : ∀ (t : S) (e : Err), (t.failWaiters e).connSemClosed = t.connSemClosed := by
+    intro t e
+    unfold S.failWaiters
+    simp only
+    exact foldl_pres S.connSemClosed _ (by
+      intro b a; rcases a with ⟨tag, k⟩
+      cases k <;> simp [S.emit, S.endTx, S.dropEarly, S.dropPing]) _ _
+  have h2 : ∀ (t : S), t.finishClosers.connSemClosed = t.connSemClosed := by
+    intro t
+    unfold S.finishClosers
+    simp only
+    exact foldl_pres S.connSemClosed _ (by intro b a; rcases a with ⟨t, d⟩; simp [S.emit]) _ _
+  rw [h2, h1]
+
+theorem answer_ping (s : S) (tag : String) (e : Err) : (s.answer tag e).ping = s.ping := by
+  unfold S.answer; split <;> simp [S.emit]
+
+theorem breakAll_ping (s : S) : s.breakAll.ping = s.ping := by
+  unfold S.breakAll
+  simp only
+  exact foldl_pres S.ping _ (fun b (a : Tx) => answer_ping b a.tag _) _ _
+
+theorem releasePing_none (s : S) (e : Err) : (s.releasePing e).ping = none := by
+  unfold S.releasePing
+  split
+  · rw [answer_ping]
+  · assumption
+
 end Model
